@@ -895,3 +895,95 @@ func (g *Gen) Features() []string {
 	sort.Strings(out)
 	return out
 }
+
+// ---------------------------------------------------------------------------------------------------
+// evalcore: programs of the evaluator sub-fragment (D2V.Model.FmtSem): plain object declarations (key paths,
+// nested bodies, non-keyword labels) and layers / scenarios / steps blocks at every position, nested.
+
+var evalNames = []string{"a", "b", "c", "x", "y", "z", "db", "api", "user", "q1", "node_1", "Bob", "web app", "k8s"}
+var evalLabels = []string{"hello", "Hello World", "x1", "some text", "v2-beta", "T"}
+
+func (g *Gen) evalObj(depth int) stmt {
+	n := g.pick(evalNames...)
+	if g.chance(0.25) {
+		g.f("key:dotted")
+		n += "." + g.pick(evalNames...)
+	}
+	switch g.R.Intn(5) {
+	case 0:
+		return stmt{lines: []string{n}}
+	case 1:
+		return stmt{lines: []string{n + ": " + g.pick(evalLabels...)}}
+	case 2, 3:
+		if depth >= 2 {
+			return stmt{lines: []string{n}}
+		}
+		k := 1 + g.R.Intn(3)
+		var body []stmt
+		for i := 0; i < k; i++ {
+			body = append(body, g.evalObj(depth+1))
+		}
+		head := n + ": "
+		if g.chance(0.2) {
+			head = n + ": " + g.pick(evalLabels...) + " "
+		}
+		return stmt{lines: g.block(head, body)}
+	default:
+		return stmt{lines: []string{n + "." + g.pick(evalNames...) + "." + g.pick(evalNames...)}}
+	}
+}
+
+func (g *Gen) evalBoardBlock(depth int, kind string) stmt {
+	g.f("board:" + kind)
+	k := 1 + g.R.Intn(3)
+	var boards []stmt
+	for i := 0; i < k; i++ {
+		bn := fmt.Sprintf("%s%d", g.pick("b", "s", "L", "step"), i)
+		body := g.evalBody(depth + 1)
+		if len(body) == 0 {
+			body = []stmt{g.evalObj(2)}
+		}
+		boards = append(boards, stmt{lines: g.block(bn+": ", body)})
+	}
+	return stmt{lines: g.block(kind+": ", boards), board: true}
+}
+
+func (g *Gen) evalBody(depth int) []stmt {
+	k := 1 + g.R.Intn(4)
+	if depth > 0 {
+		k = g.R.Intn(3)
+	}
+	var body []stmt
+	for i := 0; i < k; i++ {
+		body = append(body, g.evalObj(0))
+	}
+	if depth < 2 && g.chance(0.75) {
+		kinds := []string{"layers", "scenarios", "steps"}
+		g.R.Shuffle(len(kinds), func(i, j int) { kinds[i], kinds[j] = kinds[j], kinds[i] })
+		nb := 1 + g.R.Intn(2)
+		for j := 0; j < nb; j++ {
+			b := g.evalBoardBlock(depth, kinds[j])
+			at := g.R.Intn(len(body) + 1)
+			switch {
+			case at == len(body):
+				g.f("boardpos:last")
+			case at == 0:
+				g.f("boardpos:first")
+			default:
+				g.f("boardpos:middle")
+			}
+			body = append(body[:at], append([]stmt{b}, body[at:]...)...)
+		}
+	}
+	return body
+}
+
+// EvalCore generates one program of the evaluator sub-fragment.
+func (g *Gen) EvalCore() Program {
+	g.feat = map[string]bool{}
+	g.files = nil
+	g.indentUnit, g.eol, g.kwCase, g.comments, g.oneLineP, g.depthMax, g.depth = "  ", "\n", 0, 0, 0.25, 2, 0
+	g.f("profile:evalcore")
+	src := strings.Join(g.layout(g.evalBody(0), ""), "\n") + "\n"
+	return Program{Src: src, Feat: g.Features()}
+}
